@@ -86,9 +86,9 @@ def _cmp(op, a, b):
 
 
 def _column(e, env):
-    if e.args.get("table") or not isinstance(e.this, exp.Identifier):
-        raise Unsupported("qualified column")
-    return env[e.name]
+    if not isinstance(e.this, exp.Identifier):
+        raise Unsupported("star / non-identifier column")
+    return env[e.name]  # one-row environment keyed by column name: a table qualifier (t.x) is ignored
 
 
 def _literal(e, env):
@@ -220,26 +220,33 @@ def _gen_exprs(n, seed=20240607):
     rnd = random.Random(seed)
     ops = ["=", "<>", "<", "<=", ">", ">="]
 
+    # every operand is parenthesised: operator precedence (a parser matter) is not what is being cross-checked
+    def N(d):
+        return f"({num(d)})"
+
+    def B(d):
+        return f"({boo(d)})"
+
     def num(d):
         k = rnd.randrange(12 if d > 0 else 5)
         if k < 3:
             return rnd.choice(["x", "y"])
         if k < 5:
             return rnd.choice(["0", "1", "2", "NULL"])
+        d -= 1
         if k == 5:
-            return f"({num(d - 1)} {rnd.choice('+-*')} {num(d - 1)})"
+            return f"{N(d)} {rnd.choice('+-*')} {N(d)}"
         if k == 6:
-            inner = num(d - 1)  # never emit "--" (a comment)
-            return f"-{inner}" if rnd.random() < 0.5 and inner[0] != "-" else f"- ({inner})"
+            return f"- {N(d)}" if rnd.random() < 0.7 else rnd.choice(["-x", "-1", "- 2"])
         if k == 7:
-            return f"COALESCE({num(d - 1)}, {num(d - 1)})"
+            return f"COALESCE({num(d)}, {num(d)})"
         if k == 8:
-            return f"CASE WHEN {boo(d - 1)} THEN {num(d - 1)} ELSE {num(d - 1)} END"
+            return f"CASE WHEN {boo(d)} THEN {num(d)} ELSE {num(d)} END"
         if k == 9:
-            return f"CASE {num(d - 1)} WHEN {num(d - 1)} THEN {num(d - 1)} WHEN {num(d - 1)} THEN {num(d - 1)} END"
+            return f"CASE {num(d)} WHEN {num(d)} THEN {num(d)} WHEN {num(d)} THEN {num(d)} END"
         if k == 10:
-            return f"IIF({boo(d - 1)}, {num(d - 1)}, {num(d - 1)})"
-        return f"CASE WHEN {boo(d - 1)} THEN {num(d - 1)} END"
+            return f"IIF({boo(d)}, {num(d)}, {num(d)})"
+        return f"CASE WHEN {boo(d)} THEN {num(d)} END"
 
     def boo(d):
         k = rnd.randrange(16 if d > 0 else 3)
@@ -247,27 +254,28 @@ def _gen_exprs(n, seed=20240607):
             return rnd.choice(["b", "c"])
         if k == 2:
             return rnd.choice(["TRUE", "FALSE", "NULL"])
+        d -= 1
         if k < 6:
-            return f"{num(d - 1)} {rnd.choice(ops)} {num(d - 1)}"
+            return f"{N(d)} {rnd.choice(ops)} {N(d)}"
         if k == 6:
-            return f"({boo(d - 1)} AND {boo(d - 1)})"
+            return f"{B(d)} AND {B(d)}"
         if k == 7:
-            return f"({boo(d - 1)} OR {boo(d - 1)})"
+            return f"{B(d)} OR {B(d)}"
         if k == 8:
-            return f"NOT ({boo(d - 1)})" if rnd.random() < 0.7 else f"NOT {boo(d - 1)}"
+            return f"NOT {B(d)}"
         if k == 9:
-            return f"{num(d - 1)} {rnd.choice(['', 'NOT '])}BETWEEN {num(d - 1)} AND {num(d - 1)}"
+            return f"{N(d)} {rnd.choice(['', 'NOT '])}BETWEEN {N(d)} AND {N(d)}"
         if k == 10:
-            return f"{num(d - 1)} {rnd.choice(['', 'NOT '])}IN ({', '.join(num(d - 1) for _ in range(rnd.randint(1, 3)))})"
+            return f"{N(d)} {rnd.choice(['', 'NOT '])}IN ({', '.join(num(d) for _ in range(rnd.randint(1, 3)))})"
         if k == 11:
-            return f"{rnd.choice([num, boo])(d - 1)} IS {rnd.choice(['', 'NOT '])}NULL"
+            return f"{rnd.choice([N, B])(d)} IS {rnd.choice(['', 'NOT '])}NULL"
         if k == 12:
-            return f"({boo(d - 1)}) IS {rnd.choice(['', 'NOT '])}{rnd.choice(['TRUE', 'FALSE'])}"
+            return f"{B(d)} IS {rnd.choice(['', 'NOT '])}{rnd.choice(['TRUE', 'FALSE'])}"
         if k == 13:
-            return f"CASE WHEN {boo(d - 1)} THEN {boo(d - 1)} ELSE {boo(d - 1)} END"
+            return f"CASE WHEN {boo(d)} THEN {boo(d)} ELSE {boo(d)} END"
         if k == 14:
-            return f"COALESCE({boo(d - 1)}, {boo(d - 1)})"
-        return f"({boo(d - 1)}) {rnd.choice(['=', '<>', '<', '>='])} ({boo(d - 1)})"
+            return f"COALESCE({boo(d)}, {boo(d)})"
+        return f"{B(d)} {rnd.choice(['=', '<>', '<', '>='])} {B(d)}"
 
     return [(boo if i % 4 else num)(3) for i in range(n)]
 
